@@ -847,6 +847,10 @@ class _SimpleParameterizedType(_ParameterizedType):
         buf.write(pack(len(items)))
         inner_proto = max(3, protocol_version)
         for item in items:
+            if item is None and protocol_version >= 3:
+                # a null element has length -1 (pre-v3 collections cannot express null)
+                buf.write(pack(-1))
+                continue
             itembytes = subtype.to_binary(item, inner_proto)
             buf.write(pack(len(itembytes)))
             buf.write(itembytes)
@@ -917,12 +921,19 @@ class MapType(_ParameterizedType):
             raise TypeError("Got a non-map object for a map value")
         inner_proto = max(3, protocol_version)
         for key, val in items:
-            keybytes = key_type.to_binary(key, inner_proto)
-            valbytes = value_type.to_binary(val, inner_proto)
-            buf.write(pack(len(keybytes)))
-            buf.write(keybytes)
-            buf.write(pack(len(valbytes)))
-            buf.write(valbytes)
+            # a null key or value has length -1 (pre-v3 collections cannot express null)
+            if key is None and protocol_version >= 3:
+                buf.write(pack(-1))
+            else:
+                keybytes = key_type.to_binary(key, inner_proto)
+                buf.write(pack(len(keybytes)))
+                buf.write(keybytes)
+            if val is None and protocol_version >= 3:
+                buf.write(pack(-1))
+            else:
+                valbytes = value_type.to_binary(val, inner_proto)
+                buf.write(pack(len(valbytes)))
+                buf.write(valbytes)
         return buf.getvalue()
 
 
